@@ -683,3 +683,175 @@ func min(a, b int) int {
 	}
 	return b
 }
+
+// ---- consumers of the signature wire format ------------------------------------
+
+// propVerifyEncodings: uniqueness of the accepted encoding must survive in
+// every consumer of the wire format, not only in the Parse* functions: a
+// verifier that extracts r and s by itself (bitcoin.VerifyASN1 is anchored in
+// this property) accepts "exactly the strict-DER encodings of (r, s) with
+// 1 <= r, s < n" only if it refuses every other spelling of a signature that
+// is cryptographically valid.  The mutations of arbitrary (r, s) above cannot
+// tell, because those signatures verify under no key; here the signature is
+// valid by construction - R is lifted from a chosen abscissa (often tiny, so
+// that r + n still fits in 32 bytes), s is chosen, Q = r^-1 (s R - e G) - and
+// the same pair is then spelled in every non-canonical way.
+func propVerifyEncodings(t *rapid.T) {
+	small := new(big.Int).Sub(ref.Two256, ref.N) // values v with v + n < 2^256
+	pick := func(label string) *big.Int {
+		switch gen.Sampled([]string{"tiny", "below-2^256-n", "short", "any"}).Draw(t, label+"_kind") {
+		case "tiny":
+			return big.NewInt(int64(rapid.IntRange(1, 4096).Draw(t, label+"_tiny")))
+		case "below-2^256-n":
+			v := ref.Mod(gen.Raw256(t, small, label+"_b"), small)
+			if v.Sign() == 0 {
+				v.SetInt64(1)
+			}
+			return v
+		case "short":
+			n := rapid.IntRange(1, 31).Draw(t, label+"_short")
+			v := new(big.Int).SetBytes(gen.Bytes(t, n, n, label+"_sb"))
+			if v.Sign() == 0 {
+				v.SetInt64(2)
+			}
+			return v
+		}
+		v := ref.Mod(gen.Raw256(t, ref.N, label), ref.N)
+		if v.Sign() == 0 {
+			v.SetInt64(3)
+		}
+		return v
+	}
+	// R: the first abscissa at or after the drawn one that is on the curve (and below n, so r = x)
+	x := pick("x")
+	var R ref.Pt
+	for i := 0; ; i++ {
+		if i > 64 {
+			t.Skip("no curve point near the drawn abscissa")
+		}
+		if p, ok := ref.LiftX(x, rapid.Bool().Draw(t, "odd")); ok && x.Cmp(ref.N) < 0 {
+			R = p
+			break
+		}
+		x = new(big.Int).Add(x, big.NewInt(1))
+	}
+	r := new(big.Int).Set(x)
+	s, _ := ref.LowS(pick("s"))
+	if s.Sign() == 0 {
+		s.SetInt64(1)
+	}
+	digest := gen.Bytes(t, 32, 32, "digest")
+	e := ref.Mod(ref.Int(digest), ref.N)
+	// Q = r^-1 (s R - e G)
+	rinv := ref.Inv0(r, ref.N)
+	q := R.Mul(s).Sub(ref.BaseMul(e)).Mul(rinv)
+	if q.Inf {
+		t.Skip("Q is the identity")
+	}
+	key := lib.PubKey(q)
+	canon := ref.EncodeDERSig(r, s)
+	sighash := rapid.Byte().Draw(t, "sighash")
+	withSighash := func(der []byte) []byte { return append(append([]byte(nil), der...), sighash) }
+
+	verify := func(what string, der []byte, want bool) {
+		var got, got2 bool
+		sig := withSighash(der)
+		if p := lib.Catch(func() { got = bitcoin.VerifyASN1(key, digest, sig) }); p != nil {
+			t.Fatalf("bitcoin.VerifyASN1 panicked on %s %x: %v", what, sig, p)
+		}
+		if got != want {
+			t.Fatalf("bitcoin.VerifyASN1(Q=%v, digest=%x) = %v for %s %x of the valid signature (r=%x, s=%x); the only accepted encoding is %x", q, digest, got, what, sig, r, s, withSighash(canon))
+		}
+		if p := lib.Catch(func() {
+			got2 = key.Verify(digest, der, &secec.ECDSAOptions{Encoding: secec.EncodingASN1})
+		}); p != nil {
+			t.Fatalf("PublicKey.Verify panicked on %s %x: %v", what, der, p)
+		}
+		if got2 != want {
+			t.Fatalf("PublicKey.Verify(ASN.1) = %v for %s %x of the valid signature (r=%x, s=%x)", got2, what, der, r, s)
+		}
+		_, _, err := secec.ParseASN1Signature(der)
+		if (err == nil) != want {
+			t.Fatalf("ParseASN1Signature(%s %x): err=%v", what, der, err)
+		}
+	}
+	verify("the canonical encoding", canon, true)
+
+	rawInt := func(v *big.Int) []byte { // minimal non-negative DER content of any v >= 0
+		b := v.Bytes()
+		if len(b) == 0 || b[0]&0x80 != 0 {
+			b = append([]byte{0}, b...)
+		}
+		return b
+	}
+	seq := func(rc, sc []byte) []byte {
+		body := append(ref.DERTLV(0x02, rc), ref.DERTLV(0x02, sc)...)
+		return ref.DERTLV(0x30, body)
+	}
+	rn, sn := new(big.Int).Add(r, ref.N), new(big.Int).Add(s, ref.N)
+	alts := []struct {
+		name string
+		der  []byte
+	}{
+		{"r+n", seq(rawInt(rn), rawInt(s))},
+		{"s+n", seq(rawInt(r), rawInt(sn))},
+		{"r+n,s+n", seq(rawInt(rn), rawInt(sn))},
+		{"r+2n", seq(rawInt(new(big.Int).Add(rn, ref.N)), rawInt(s))},
+		{"n-s (high s)", seq(rawInt(r), rawInt(new(big.Int).Sub(ref.N, s)))},
+		{"zero-padded r", seq(append([]byte{0}, rawInt(r)...), rawInt(s))},
+		{"zero-padded s", seq(rawInt(r), append([]byte{0}, rawInt(s)...))},
+		{"r without its sign byte", seq(r.Bytes(), rawInt(s))},
+		{"long-form SEQUENCE length", append([]byte{0x30, 0x81, canon[1]}, canon[2:]...)},
+		{"trailing byte inside", func() []byte { d := append(append([]byte(nil), canon...), 0); d[1]++; return d }()},
+		{"trailing byte outside", append(append([]byte(nil), canon...), 0)},
+	}
+	fits32 := rn.BitLen() <= 256
+	cl := []string{fmt.Sprintf("r-bytes:%d", len(r.Bytes())/8*8), fmt.Sprintf("s-bytes:%d", len(s.Bytes())/8*8)}
+	if fits32 {
+		cl = append(cl, "r+n-fits-32-bytes")
+	}
+	if sn.BitLen() <= 256 {
+		cl = append(cl, "s+n-fits-32-bytes")
+	}
+	for _, a := range alts {
+		if bytes.Equal(a.der, canon) {
+			continue // e.g. r has no sign byte to drop
+		}
+		want := false
+		if a.name == "n-s (high s)" {
+			// a different, valid signature: the generic verifier accepts it unless asked
+			// not to, the bitcoin one never does; checked separately
+			sig := withSighash(a.der)
+			if bitcoin.VerifyASN1(key, digest, sig) {
+				t.Fatalf("bitcoin.VerifyASN1 accepted the high-s twin %x", sig)
+			}
+			continue
+		}
+		verify(a.name, a.der, want)
+	}
+	// compact spellings of the same valid pair
+	compact := append(ref.B32(r), ref.B32(s)...)
+	if !key.Verify(digest, compact, &secec.ECDSAOptions{Encoding: secec.EncodingCompact}) {
+		t.Fatalf("PublicKey.Verify(compact) rejected the valid signature (r=%x, s=%x)", r, s)
+	}
+	if fits32 {
+		alias := append(ref.B32(rn), ref.B32(s)...)
+		if key.Verify(digest, alias, &secec.ECDSAOptions{Encoding: secec.EncodingCompact}) {
+			t.Fatalf("PublicKey.Verify(compact) accepted r+n = %x for the valid signature (r=%x, s=%x)", rn, r, s)
+		}
+		if _, _, err := secec.ParseCompactSignature(alias); err == nil {
+			t.Fatalf("ParseCompactSignature accepted r+n = %x", rn)
+		}
+	}
+	if sn.BitLen() <= 256 {
+		alias := append(ref.B32(r), ref.B32(sn)...)
+		if key.Verify(digest, alias, &secec.ECDSAOptions{Encoding: secec.EncodingCompact}) {
+			t.Fatalf("PublicKey.Verify(compact) accepted s+n = %x for the valid signature (r=%x, s=%x)", sn, r, s)
+		}
+	}
+	stat.Case("verify-encodings", cl, true, []byte(fmt.Sprintf("%x|%x|%x", r, s, digest)), func() any {
+		return map[string]any{"r": r.Text(16), "s": s.Text(16), "digest": stat.Hex(digest), "Q": q.String(), "canonical": stat.Hex(canon)}
+	})
+}
+
+func TestC12_VerifyEncodings(t *testing.T) { rapid.Check(t, propVerifyEncodings) }
